@@ -133,6 +133,43 @@ func hbResponseReady(c *core.Ctx) {
 	c.Note("W = %s", strings.Join(wnames, ", "))
 	c.Floor("fields written by the request goroutine", len(W), 4)
 
+	// (1b) the send side never waits for the response: nothing in the call tree of a client conn's Send may
+	// touch a field the request goroutine writes (a validator that reconfigures the marshaler races with it)
+	{
+		clientConnT := p.Named(core.ConnectPath, "StreamingClientConn")
+		sends := 0
+		for _, fd := range p.AllFuncDecls(p.Connect) {
+			if fd.Recv == nil || fd.Name.Name != "Send" || clientConnT == nil {
+				continue
+			}
+			rn := astx.RecvNamed(info.Defs[fd.Name].(*types.Func))
+			if rn == nil || !types.Implements(types.NewPointer(rn), clientConnT.Underlying().(*types.Interface)) || embedsInterface(rn) != nil {
+				continue
+			}
+			sends++
+			var hit []string
+			for _, g := range callTree(p, info, []*ast.FuncDecl{fd}, 3) {
+				gname := core.FuncName(g)
+				if strings.HasPrefix(gname, "duplexHTTPCall.") {
+					continue // the call's own methods order themselves through the Once, the pipe and errMu
+				}
+				ast.Inspect(g.Body, func(x ast.Node) bool {
+					if sel, ok := x.(*ast.SelectorExpr); ok {
+						if f := astx.FieldOf(info, sel); f != nil {
+							if by, inW := W[f]; inW {
+								hit = append(hit, fmt.Sprintf("%s reads %s (written by %s)", gname, f.Name(), by))
+							}
+						}
+					}
+					return true
+				})
+			}
+			sort.Strings(hit)
+			c.Check(len(hit) == 0, "send-tree/"+core.FuncName(fd), fd.Pos(), "%s and what it calls touch no field that the request goroutine writes%s", core.FuncName(fd), joinProblems(dedup(hit)))
+		}
+		c.Floor("client conn Send methods (send tree)", sends, 3)
+	}
+
 	// (2) user-callable methods of client conn types and duplexHTTPCall
 	var methods []*ast.FuncDecl
 	for _, fd := range p.AllFuncDecls(p.Connect) {
